@@ -225,6 +225,12 @@ def doInstall (s : HSt) (hdr obs : List String) : HSt := Id.run do
     -- C17: both written ranges flushed with their final content
     if !flushCovers evs ojit (tr.take (if kind = "b" then 8 else (if tr.take 1 == [0xE9] then 5 else 12))) then s := s.fail "c17.tramp-flush"
     if !flushCovers evs tgt.addr (slot.take oplen) then s := s.fail "c17.entry-flush"
+    -- C01: the entry may point at the trampoline only once the trampoline holds its code: the
+    -- trampoline's flush (issued right after it is written) must precede the entry's
+    let idxOf := fun (a : Nat) => (List.zip (List.range evs.length) evs).find? (fun p => match p.2 with | Ev.F lo hi _ => lo ≤ a && a < hi | _ => false) |>.map (·.1)
+    match idxOf ojit, idxOf tgt.addr with
+    | some it, some ie => if ie < it then s := s.fail "c01.entry-before-trampoline"
+    | _, _ => pure ()
     -- C12: every munmap targets something the library mapped itself
     if evs.any (fun e => match e with | Ev.U _ _ o => !o | _ => false) then s := s.fail "c12.foreign-munmap"
     if foreignUnmapHitsCode s.arenas evs then s := s.fail "c03.unmapped-foreign-code"
